@@ -580,6 +580,11 @@ def c07(tier):
     for n in (2, 3, 5):
         for cfg in (sma(n), {"k": "Alma", "n": n}):
             adv.append({"cfg": cfg, "unit": 1000, "mode": "range", "eps": [1, 1], "float": "f64", "pairs": True, "xs": extreme_runs(rnd, n, 200), "k": 1})
+    # the variance-type views on the same thirty decades, starting with tiny values (an accumulator initialised to anything but
+    # "nothing seen yet" shows in the first answers only when they are tiny)
+    for cfg in ({"k": "WelfordRolling"}, {"k": "WelfordOnline", "n": 3}, {"k": "Vsct", "n": 3}, {"k": "HLNormalizer", "n": 3}, {"k": "Rsi", "n": 3}, {"k": "MyRSI", "n": 3}):
+        adv.append({"cfg": cfg, "unit": 1000, "mode": "range", "eps": [1, 1], "float": "f64", "pairs": True,
+                    "xs": [[rnd.randint(1, 2000), -40] for _ in range(6)] + extreme_runs(rnd, 3, 200), "k": 1})
     third = len(adv) // 3 + 1
     for i in range(3):
         run.submit(p3_stream_job, "rng-adv-%d" % i, "C07", adv[i * third:(i + 1) * third])
